@@ -15,6 +15,12 @@ log_history  several log parser classes (composed str/list/dict time formats tha
            formats / form with one another, sub-classes, several objects of one class, lazy loading)
            searched one after the other in one process: every search answers as if it were the only one.
 framework  a multi-output spec feeding a command parser through the dependency runner.
+provider   the five families above (same generators and oracles) with the content delivered by the real
+           content providers - a file below a temporary root read by TextFileProvider / SerializedOutputProvider
+           (direct, or made by a simple_file / glob_file / first_file spec evaluated under an archive context),
+           `cat file` through CommandOutputProvider / simple_command, DatasourceProvider - and with the
+           characters text layers treat specially inside lines (VT FF FS GS RS NEL LS PS, other controls and
+           blanks), trailing blanks, empty first / last lines, files without final newline.
 """
 import datetime
 import json
@@ -43,6 +49,13 @@ RULE = ("command: outputs of 0-6 lines built from filler, near-miss phrases and 
         "second object of a class, LazyLogFileOutput), each with its own log, then every parser searched "
         "in a generated order plus 0-3 further searches (get_after, some get); non-trivial = two parsers "
         "with different time formats searched and a later search expects some but not all lines. "
+        "provider: one of the five families (json/yaml leaves, keys and noise lines, command/log lines and log "
+        "messages additionally salted with VT FF FS GS RS NEL U+2028 U+2029 and other control / blank characters; "
+        "search terms cut out of a line around such a character) x a delivery route (TextFileProvider with no / "
+        "HostArchive / SosArchive / SerializedArchive / Host context, SerializedOutputProvider, simple_file / "
+        "glob_file / first_file evaluated by dr.run, CommandOutputProvider / simple_command running cat, "
+        "DatasourceProvider(list)) x file with/without final newline; non-trivial = content read from a file or a "
+        "process and some line holds one of the special characters. "
         "Distinct by the whole case.")
 ASSUMPTIONS = [
     "python's json module and PyYAML (same loader class the parser uses) define what a document's "
@@ -51,6 +64,8 @@ ASSUMPTIONS = [
     "C/POSIX locale for %a/%b/%p names (strftime and strptime of the same process)",
     "the phrases named in the CommandParser documentation are the must-reject set; the class's current "
     "lists (read at run time) bound what may be rejected",
+    "provider: a file of an archive is a sequence of lines separated by LF (a last empty line exists through the "
+    "LF after it); /bin/cat writes the file's bytes to its standard output unchanged",
     "log_history runs every case in a forked copy of the worker that ends with the case (os.fork), so a "
     "history consists of exactly the parsers and searches of the case",
 ]
@@ -66,6 +81,11 @@ EXCLUDED = [
     "log_history: time_format lists/dicts that mix formats with and without a year, or that hold two formats "
     "of which one is found inside stamps of the other (the 3 pairs in CONFUSABLE): which format such a stamp "
     "has is not stated",
+    "provider: CR inside a line (text mode reading turns a lone CR / CRLF into a line end; what should happen "
+    "to it is not stated); undecodable bytes; DatasourceProvider built from one string; StreamParser / stream()",
+    "provider, live command output only (CommandOutputProvider / simple_command): lines holding VT FF FS GS RS "
+    "NEL U+2028 U+2029 - ExecutionContext.shell_out cuts there on the unchanged tree, pinned finding "
+    "C07-host-linebreak-chars - and empty output under HostContext (documented: an empty spec is not collected)",
 ]
 
 # ------------------------------------------------------------------------------------------------
@@ -142,9 +162,14 @@ def _ascii_lower(s):
 _BASELINE = {}
 
 
-def check_command(case):
-    from insights.core import CommandParser
+def _plain_context(lines, path):
+    """the hand-made context of the five original sub-checks: the content is the list itself"""
     from insights.core.context import Context
+    return Context(content=lines, path=path)
+
+
+def check_command(case, mk=_plain_context):
+    from insights.core import CommandParser
     from insights.core.exceptions import ContentException
 
     lines = list(case["lines"])
@@ -172,7 +197,7 @@ def check_command(case):
     must = hit(doc_list, _ascii_lower) + hit(ex, _ascii_lower)
     may = hit(cur_list, lambda s: s.lower()) + hit(ex, lambda s: s.lower())
 
-    ctx = Context(content=lines, path="/usr/bin/some_command")
+    ctx = mk(lines, "/usr/bin/some_command")
     obj = None
     rejected = False
     try:
@@ -215,7 +240,7 @@ def check_command(case):
                 def parse_content(self, content):
                     seen2.append(content)
             try:
-                Q(Context(content=list(probe), path="/usr/bin/other_command"))
+                Q(mk(list(probe), "/usr/bin/other_command"))
             except ContentException:
                 raise Violation("after a parser was created with extra_bad_lines=%r, a different command parser "
                                 "without extra phrases rejects the ordinary output %r" % (ex, probe),
@@ -262,13 +287,13 @@ _scalar = st.one_of(st.none(), st.booleans(), st.integers(-10 ** 6, 10 ** 6), st
                     st.floats(allow_nan=False, allow_infinity=False), _txt)
 
 
-def _values(keys):
-    return st.recursive(_scalar, lambda ch: st.one_of(st.lists(ch, max_size=4),
+def _values(keys, scalar=None):
+    return st.recursive(_scalar if scalar is None else scalar, lambda ch: st.one_of(st.lists(ch, max_size=4),
                                                       st.dictionaries(keys, ch, max_size=4)), max_leaves=10)
 
 
-def _roots(keys):
-    v = _values(keys)
+def _roots(keys, scalar=None):
+    v = _values(keys, scalar)
     return st.one_of(st.lists(v, max_size=5), st.dictionaries(keys, v, max_size=5),
                      st.lists(v, min_size=1, max_size=3), st.dictionaries(keys, v, min_size=1, max_size=3))
 
@@ -325,7 +350,11 @@ def _json_text(draw, value):
 
 
 @st.composite
-def _json_case(draw):
+def _json_case(draw, scalar=None, noise_line=None, keys=None):
+    """scalar / noise_line / keys: other leaf, noise-line and key strategies than the standard ones
+    (the `provider` sub-check passes alphabets with the characters text layers treat specially)"""
+    noise_line = _noise_line if noise_line is None else noise_line
+    keys = st.text(max_size=5) if keys is None else keys
     kind = draw(st.sampled_from(["valid"] * 8 + ["truncate", "truncate", "delete", "delete", "garbage", "concat",
                                                  "empty", "null", "null", "scalar", "insert", "deep"]))
     if kind == "empty":
@@ -336,15 +365,15 @@ def _json_case(draw):
         lines = draw(st.sampled_from([["null"], [" null "], ["", "null"], ["null", ""], ["\tnull", "  "]]))
         return {"kind": kind, "lines": lines, "noise": 0, "value": None}
     if kind == "garbage":
-        lines = draw(st.lists(st.one_of(_noise_line, _fill), min_size=1, max_size=4))
+        lines = draw(st.lists(st.one_of(noise_line, _fill), min_size=1, max_size=4))
         return {"kind": kind, "lines": lines, "noise": 0, "value": None}
     if kind == "scalar":
         v = draw(st.one_of(st.booleans(), st.integers(-999, 10 ** 20), st.floats(allow_nan=False, allow_infinity=False),
                            st.text(max_size=5)))
         return {"kind": kind, "lines": json.dumps(v).split("\n"), "noise": 0, "value": v}
-    value = draw(_roots(st.text(max_size=5)))
+    value = draw(_roots(keys, scalar))
     text = draw(_json_text(value))
-    noise = draw(st.one_of(st.just([]), st.just([]), st.lists(_noise_line, min_size=1, max_size=3)))
+    noise = draw(st.one_of(st.just([]), st.just([]), st.lists(noise_line, min_size=1, max_size=3)))
     if kind == "valid":
         lead = draw(st.sampled_from(["", "", " ", "\t", "    "]))
         trail = draw(st.sampled_from([[], [], [""], ["  ", ""]]))
@@ -393,9 +422,8 @@ def _json_reference(lines):
     return "scalar", v, start
 
 
-def check_json(case):
+def check_json(case, mk=_plain_context):
     from insights.core import JSONParser
-    from insights.core.context import Context
     from insights.core.exceptions import ParseException, SkipComponent, ContentException
 
     class J(JSONParser):
@@ -413,7 +441,7 @@ def check_json(case):
         cls, want, start = _json_reference(lines)
     outcome, obj = None, None
     try:
-        obj = J(Context(content=lines, path="/tmp/doc.json"))
+        obj = J(mk(lines, "/tmp/doc.json"))
         outcome = "value"
     except ContentException as e:
         raise Violation("JSONParser raised ContentException", lines=lines[:20], error=str(e))
@@ -501,8 +529,9 @@ _ykeys = st.one_of(st.text(alphabet="abcXYZ_- .", min_size=1, max_size=6), _txt)
 
 
 @st.composite
-def _yaml_case(draw):
+def _yaml_case(draw, scalar=None, keys=None):
     import yaml
+    keys = _ykeys if keys is None else keys
     kind = draw(st.sampled_from(["valid"] * 9 + ["truncate", "delete", "broken", "broken", "empty", "scalar", "garbage"]))
     if kind == "broken":
         return {"kind": kind, "lines": draw(st.sampled_from(YAML_BROKEN)).split("\n"), "ignore": [], "value": None, "ignored": []}
@@ -514,7 +543,7 @@ def _yaml_case(draw):
     if kind == "garbage":
         return {"kind": kind, "lines": draw(st.lists(st.one_of(_fill, _noise_line), min_size=1, max_size=4)),
                 "ignore": [], "value": None, "ignored": []}
-    value = draw(_roots(_ykeys))
+    value = draw(_roots(keys, scalar))
     text = yaml.safe_dump(value, default_flow_style=draw(st.sampled_from([False, False, True, None])),
                           allow_unicode=draw(st.booleans()), indent=draw(st.sampled_from([None, 2, 4])),
                           width=draw(st.sampled_from([80, 20, 1000])), explicit_start=draw(st.booleans()),
@@ -545,10 +574,9 @@ def strat_yaml(tier):
     return _yaml_case()
 
 
-def check_yaml(case):
+def check_yaml(case, mk=_plain_context):
     import yaml
     from insights.core import YAMLParser
-    from insights.core.context import Context
     from insights.core.exceptions import ParseException, SkipComponent, ContentException
 
     Y = type("Y", (YAMLParser,), {"ignore_lines": tuple(case["ignore"])})
@@ -567,7 +595,7 @@ def check_yaml(case):
         cls, want = _yaml_reference("\n".join(kept))
     outcome, obj = None, None
     try:
-        obj = Y(Context(content=lines, path="/tmp/doc.yaml"))
+        obj = Y(mk(lines, "/tmp/doc.yaml"))
         outcome = "value"
     except ContentException as e:
         raise Violation("YAMLParser raised ContentException", lines=lines[:20], error=str(e))
@@ -640,9 +668,8 @@ def strat_get(tier):
     return _get_case()
 
 
-def check_get(case):
+def check_get(case, mk=_plain_context):
     from insights.core import LogFileOutput, TextFileOutput
-    from insights.core.context import Context
 
     base = LogFileOutput if case["base"] == "log" else TextFileOutput
     L = type("L", (base,), {})
@@ -654,7 +681,7 @@ def check_get(case):
     L.keep_scan("kept", s_arg, check=chk, num=num, reverse=rev)
     L.last_scan("last", s_arg, check=chk)
     L.token_scan("tok", s_arg, check=chk)
-    obj = L(Context(content=lines, path="/var/log/x.log"))
+    obj = L(mk(lines, "/var/log/x.log"))
 
     terms = s if isinstance(s, list) else [s]
     if case["check"] == "all" or not isinstance(s, list):
@@ -897,9 +924,8 @@ def _after_real(obj, q, s):
     return got
 
 
-def check_after(case):
+def check_after(case, mk=_plain_context):
     from insights.core import LogFileOutput
-    from insights.core.context import Context
 
     f = FORMATS[case["fmt"]]
     alts = _alts(f["tf"])
@@ -910,7 +936,7 @@ def check_after(case):
     rendered, times, spacepadded = _render_log(case["lines"], alts)
     s = case["s"]
     want = _after_reference(rendered, times, q, s)
-    obj = L(Context(content=rendered, path="/var/log/x.log"))
+    obj = L(mk(rendered, "/var/log/x.log"))
     got = _after_real(obj, q, s)
     if got != want:
         raise Violation("get_after(%s, %r) returned %r, expected %r" % (q.isoformat(), s, got, want),
@@ -1294,6 +1320,253 @@ def _history_body(case):
 
 
 # ------------------------------------------------------------------------------------------------
+# provider: the same oracles, content delivered by the real content providers
+# ------------------------------------------------------------------------------------------------
+# The sub-checks above hand every parser a hand-made Context whose content *is* the generated list.
+# A parser of an archive never sees such an object: its content is what a content provider makes of
+# a file (a collected file or the saved output of a command: lines separated by "\n", nothing else)
+# or of the output of a process.  Here every family above (command / json / yaml / log_get /
+# log_after - same generators, same oracles) gets its content from a file written below a temporary
+# root and read by TextFileProvider / SerializedOutputProvider (handed over directly, with and without
+# an archive context) or by the provider a simple_file / glob_file / first_file spec makes when it
+# is evaluated by dr.run under an archive context, from `cat file` through CommandOutputProvider /
+# simple_command under a HostContext, or from a DatasourceProvider holding the list.  The generated
+# text additionally holds, inside lines, the characters text layers like to treat specially: those
+# str.splitlines() cuts at besides "\n" (VT FF FS GS RS NEL LS PS), other separators / controls /
+# odd blanks, trailing blanks, empty lines at either end, no newline at the end of the file.
+
+LINE_INNER = [u"\x0b", u"\x0c", u"\x1c", u"\x1d", u"\x1e", u"\x85", u"\u2028", u"\u2029"]
+ODD_OTHER = [u"\x1f", u"\x00", u"\x1a", u"\x1b", u"\x7f", u"\xa0", u"\u3000", u"\u200b", u"\ufeff", u"\t", u" "]
+VIA_DIRECT = ["TextFileProvider", "SerializedOutputProvider"]
+VIA_SPEC = ["simple_file", "glob_file", "first_file"]
+VIA_PROCESS = ["CommandOutputProvider", "simple_command"]
+VIA_CTX = {
+    "TextFileProvider": ["none", "HostArchiveContext", "HostArchiveContext", "SosArchiveContext",
+                         "SerializedArchiveContext", "HostContext"],
+    "SerializedOutputProvider": ["SerializedArchiveContext"],
+    "simple_file": ["HostArchiveContext", "HostArchiveContext", "SosArchiveContext"],
+    "glob_file": ["HostArchiveContext", "SosArchiveContext"],
+    "first_file": ["HostArchiveContext", "SosArchiveContext"],
+    "CommandOutputProvider": ["HostContext"],
+    "simple_command": ["HostContext"],
+    "DatasourceProvider": ["none", "HostArchiveContext"],
+}
+FAMILIES = ["command", "command", "command", "json", "json", "json", "yaml", "yaml", "log_get", "log_get",
+            "log_after", "log_after"]
+
+
+class _Skip(BaseException):
+    """raised by the delivery for content outside the defined domain of a route (BaseException: the check
+    functions turn every Exception of the parser call into a violation); never leaves check_provider"""
+
+    def __init__(self, label):
+        BaseException.__init__(self, label)
+        self.label = label
+
+
+def _salted(draw, s, alphabet, counts=(0, 1, 1, 2)):
+    """s with 0-2 characters of the alphabet put in at generated positions"""
+    for _ in range(draw(st.sampled_from(list(counts)))):
+        p = draw(st.integers(0, len(s)))
+        s = s[:p] + draw(st.sampled_from(alphabet)) + s[p:]
+    return s
+
+
+def _odd_text(alphabet):
+    return st.lists(st.one_of(st.sampled_from(alphabet), st.sampled_from(alphabet),
+                              st.sampled_from([u"a", u"b ", u"line", u" ", u"é", u"1", u"x: y", u"#"])),
+                    min_size=1, max_size=5).map(lambda xs: u"".join(xs))
+
+
+@st.composite
+def _via(draw):
+    kind = draw(st.sampled_from(["TextFileProvider"] * 4 + ["SerializedOutputProvider"] * 2 + ["simple_file"] * 2 +
+                                ["glob_file", "first_file", "CommandOutputProvider", "simple_command",
+                                 "DatasourceProvider"]))
+    return {"kind": kind, "ctx": draw(st.sampled_from(VIA_CTX[kind])), "final_newline": draw(st.booleans())}
+
+
+@st.composite
+def _provider_case(draw):
+    via = draw(_via())
+    # the output of a live command is cut at the LINE_INNER characters on the unchanged tree (pinned
+    # finding C07-host-linebreak-chars): that route gets the other odd characters only
+    alpha = list(ODD_OTHER) if via["kind"] in VIA_PROCESS else LINE_INNER + LINE_INNER + ODD_OTHER
+    fam = draw(st.sampled_from(FAMILIES))
+    if fam == "command":
+        inner = draw(_cmd_case())
+        inner["lines"] = [_salted(draw, l, alpha) for l in inner["lines"]]
+    elif fam == "json":
+        odd = _odd_text(alpha)
+        inner = draw(_json_case(scalar=st.one_of(_scalar, odd), keys=st.one_of(st.text(max_size=5), odd),
+                                noise_line=st.one_of(_noise_line, st.builds(lambda a, b: a + b, _noise_line, odd))))
+    elif fam == "yaml":
+        odd = _odd_text(alpha)
+        inner = draw(_yaml_case(scalar=st.one_of(_scalar, odd), keys=st.one_of(_ykeys, odd)))
+    elif fam == "log_get":
+        inner = draw(_get_case())
+        inner["lines"] = [_salted(draw, l, alpha) for l in inner["lines"]]
+        spots = [(i, p) for i, l in enumerate(inner["lines"]) for p, c in enumerate(l) if c in alpha and c != u" "]
+        if spots and draw(st.integers(0, 2)) == 0:
+            # a term that holds one of the characters: a piece of a line around it
+            i, p = spots[draw(st.integers(0, len(spots) - 1))]
+            t = inner["lines"][i][max(0, p - draw(st.integers(0, 3))):p + 1 + draw(st.integers(0, 3))]
+            inner["s"] = (inner["s"][:2] + [t]) if isinstance(inner["s"], list) else t
+    else:
+        inner = draw(_after_case())
+        for ln in inner["lines"]:
+            ln["msg"] = _salted(draw, ln["msg"], alpha)
+    return {"parser": fam, "via": via, "inner": inner}
+
+
+def strat_provider(tier):
+    return _provider_case()
+
+
+class _Delivery(object):
+    """mk(lines, path) of the check functions above: writes the lines as a file below a temporary root
+    and returns the provider the case names for it; leaves nothing behind"""
+
+    def __init__(self, via):
+        self.via = via
+        self.root = None
+        self.gs = None
+        self.n = 0
+        self.made = []          # (provider class name, context class name, number of lines)
+
+    def __enter__(self):
+        import tempfile
+        self.root = tempfile.mkdtemp(prefix="vp-c14-")
+        if self.via["kind"] in VIA_SPEC or self.via["kind"] == "simple_command":
+            from vp.sandbox import GlobalState
+            self.gs = GlobalState()
+            self.gs.__enter__()
+        return self
+
+    def __exit__(self, *exc):
+        import shutil
+        try:
+            if self.gs is not None:
+                self.gs.__exit__(None, None, None)
+        finally:
+            shutil.rmtree(self.root, ignore_errors=True)
+        return False
+
+    def _context(self):
+        from insights.core import context
+        name = self.via["ctx"]
+        if name == "none":
+            return None, None
+        cls = getattr(context, name)
+        return cls, cls(root=self.root)
+
+    def __call__(self, lines, path):
+        import io
+        import os
+        from insights.core import dr, spec_factory as sf
+        kind = self.via["kind"]
+        for l in lines:
+            if u"\n" in l or u"\r" in l:
+                raise _Skip("skip:line-holds-newline-or-cr")
+        if kind in VIA_PROCESS:
+            if any(c in l for l in lines for c in LINE_INNER):
+                raise _Skip("skip:live-output-linebreak-chars(known-finding)")
+        if self.via["ctx"] == "HostContext" and not lines:
+            raise _Skip("skip:empty-content-is-not-collected-on-a-host")
+        ctxcls, ctx = self._context()
+        rel = "f%d/%s" % (self.n, path.lstrip("/"))
+        self.n += 1
+        if kind == "DatasourceProvider":
+            prov = sf.DatasourceProvider(list(lines), rel, root=self.root, ctx=ctx)
+            self.made.append((type(prov).__name__, self.via["ctx"], len(lines)))
+            return prov
+        full = os.path.join(self.root, rel)
+        os.makedirs(os.path.dirname(full))
+        text = u"\n".join(lines)
+        if lines and (self.via["final_newline"] or lines[-1] == u""):
+            text += u"\n"       # (a last line that is empty exists only through the newline after it)
+        with io.open(full, "wb") as f:
+            f.write(text.encode("utf-8"))
+        if kind == "TextFileProvider":
+            prov = sf.TextFileProvider(rel, root=self.root, ctx=ctx)
+        elif kind == "SerializedOutputProvider":
+            prov = sf.SerializedOutputProvider(rel, root=self.root, ctx=ctx)
+        elif kind == "CommandOutputProvider":
+            prov = sf.CommandOutputProvider("/bin/cat " + full, ctx)
+        else:
+            if kind == "simple_file":
+                ds = sf.simple_file("/" + rel, context=ctxcls)
+            elif kind == "glob_file":
+                ds = sf.glob_file(os.path.dirname(rel) + "/*", context=ctxcls)
+            elif kind == "first_file":
+                ds = sf.first_file([rel + ".absent", "/" + rel], context=ctxcls)
+            elif kind == "simple_command":
+                ds = sf.simple_command("/bin/cat " + full, context=ctxcls)
+            else:
+                raise RuntimeError("unknown delivery %r" % (kind,))
+            broker = dr.Broker()
+            broker[ctxcls] = ctx
+            broker = dr.run(dr.get_dependency_graph(ds), broker=broker)
+            prov = broker.get(ds)
+            if isinstance(prov, list) and len(prov) == 1:
+                prov = prov[0]
+            if prov is None or isinstance(prov, list):
+                raise Violation("the %s spec evaluated under %s made no content provider for the existing readable "
+                                "file %s" % (kind, self.via["ctx"], rel), got=repr(prov),
+                                errors=[repr(e) for es in broker.exceptions.values() for e in es])
+        self.made.append((type(prov).__name__, self.via["ctx"], len(lines)))
+        return prov
+
+
+_PROVIDER_FAMILY = {}
+
+
+def check_provider(case):
+    if not _PROVIDER_FAMILY:
+        _PROVIDER_FAMILY.update({"command": check_command, "json": check_json, "yaml": check_yaml,
+                                 "log_get": check_get, "log_after": check_after})
+    via, fam, inner = case["via"], case["parser"], case["inner"]
+    labels = ["parser=" + fam, "via=" + via["kind"], "ctx=" + via["ctx"]]
+    with _Delivery(via) as d:
+        try:
+            res = _PROVIDER_FAMILY[fam](inner, mk=d)
+        except _Skip as sk:
+            return {"nontrivial": False, "labels": labels + [sk.label]}
+        except Violation as v:
+            how = "; ".join("%s%s, file of %d lines" % (p, "" if c == "none" else " under " + c, n) for p, c, n in d.made)
+            details = dict(v.details) if isinstance(v.details, dict) else {"details": v.details}
+            details["delivery"] = via
+            raise Violation("[content delivered by %s] %s" % (how or via["kind"], v.msg), **details)
+    # what the delivered text looked like (from the case: the inner checks compare with exactly these lines)
+    if fam == "log_after":
+        text = [ln["msg"] for ln in inner["lines"]]
+    else:
+        text = list(inner["lines"])
+    if fam == "json" and inner.get("kind") == "deep":
+        text = []
+    inner_lb = any(c in l for l in text for c in LINE_INNER)
+    odd = any(c in l for l in text for c in ODD_OTHER if c not in (u" ", u"\t"))
+    if inner_lb:
+        labels.append("line-holds-linebreakish-char")
+    if odd:
+        labels.append("line-holds-other-odd-char")
+    if any(l != l.rstrip() for l in text):
+        labels.append("trailing-blank")
+    if text and text[-1] == u"":
+        labels.append("last-line-empty")
+    if text and text[0] == u"":
+        labels.append("first-line-empty")
+    if not text:
+        labels.append("no-lines")
+    elif not via["final_newline"] and text[-1] != u"" and via["kind"] != "DatasourceProvider":
+        labels.append("file-without-final-newline")
+    labels += ["%s:%s" % (fam, l) for l in res.get("labels", [])
+               if l.split("=")[0] in ("kind", "outcome", "rejected", "accepted", "match", "year", "yearless")]
+    real = via["kind"] != "DatasourceProvider"
+    return {"nontrivial": real and (inner_lb or odd) and len(text) > 0, "labels": sorted(set(labels))}
+
+
+# ------------------------------------------------------------------------------------------------
 
 
 def selftest():
@@ -1349,6 +1622,12 @@ def selftest():
         assert a in YEAR_FMTS and b in YEAR_FMTS and (confusable(a, b) or confusable(b, a)), (a, b)
     for f in YEAR_FMTS + [NOYEAR_FMT]:
         assert render_stamp(t, f, False) == dt.strftime(f), f
+
+    # provider: LINE_INNER is exactly the set of characters (besides CR / LF) at which the language's
+    # line splitting cuts, i.e. the ones a layer built on str.splitlines() would lose inside a line
+    cut = [chr(c) for c in range(0x3100) if len((u"a" + chr(c) + u"b").splitlines()) > 1]
+    assert sorted(cut) == sorted(LINE_INNER + [u"\n", u"\r"]), [hex(ord(c)) for c in cut]
+    assert not any(c in LINE_INNER for c in ODD_OTHER)
 
 
 # ------------------------------------------------------------------------------------------------
@@ -1458,15 +1737,27 @@ def strat_framework(tier):
 
 SUBS = [
     Sub("framework", check_framework, strategy=strat_framework, quick=300, thorough=3000, workers_quick=2),
-    Sub("command", check_command, strategy=strat_command, quick=900, thorough=10000, workers_quick=2),
-    Sub("json", check_json, strategy=strat_json, quick=850, thorough=10000, workers_quick=2),
+    Sub("command", check_command, strategy=strat_command, quick=800, thorough=10000, workers_quick=2),
+    Sub("json", check_json, strategy=strat_json, quick=800, thorough=10000, workers_quick=2),
     Sub("yaml", check_yaml, strategy=strat_yaml, quick=600, thorough=8000, workers_quick=2),
-    Sub("log_get", check_get, strategy=strat_get, quick=900, thorough=10000, workers_quick=2),
-    Sub("log_after", check_after, strategy=strat_after, quick=1000, thorough=12000, workers_quick=2),
+    Sub("log_get", check_get, strategy=strat_get, quick=800, thorough=10000, workers_quick=2),
+    Sub("log_after", check_after, strategy=strat_after, quick=900, thorough=12000, workers_quick=2),
     Sub("log_history", check_history, strategy=strat_history, quick=400, thorough=4000, workers_quick=2),
+    Sub("provider", check_provider, strategy=strat_provider, quick=350, thorough=6000, workers_quick=2),
 ]
 
 REGRESSIONS = [
+    # corners of the delivery of the `provider` sub-check (what a file / an output with these lines must read back as)
+    Reg("provider-file-empty-first-line-no-final-newline", "provider", {
+        "parser": "command", "via": {"kind": "TextFileProvider", "ctx": "HostArchiveContext", "final_newline": False},
+        "inner": {"lines": ["", "a \x1f b ", "c\t"], "extra": None}}),
+    Reg("provider-live-output-last-line-empty", "provider", {
+        "parser": "command", "via": {"kind": "simple_command", "ctx": "HostContext", "final_newline": False},
+        "inner": {"lines": [" x", ""], "extra": None}}),
+    Reg("provider-spec-json-behind-noise-trailing-empty-line", "provider", {
+        "parser": "json", "via": {"kind": "glob_file", "ctx": "SosArchiveContext", "final_newline": True},
+        "inner": {"kind": "valid", "lines": ["warn\xa0 {x} ", "{\"k\u200b\": [1,", " \"\ufeff\"]}", ""], "noise": 1,
+                  "value": {"k\u200b": [1, "\ufeff"]}}}),
     # false alarm of the harness found by the thorough tier (NaN != NaN), corrected in strict_eq
     Reg("json-nan-scalar", "json", {"kind": "garbage", "lines": ["NaN"], "noise": 0, "value": None}),
     Reg("single-line-upper", "command", {"lines": ["bash: foo: Command Not Found"], "extra": None}),
